@@ -229,6 +229,7 @@ func (st *TxState) toCore() *ledger.Transaction {
 
 func (m *ModelStore) GetBalance(ctx context.Context, address, asset string) (*big.Int, error) {
 	m.sim.gateCtx(ctx, "store.GetBalance:"+address+"/"+asset)
+	defer m.sim.gateCtx(ctx, "store.GetBalance.answer")
 	m.mu.Lock()
 	defer m.mu.Unlock()
 	return m.fold.Balance(address, asset), nil
@@ -236,6 +237,7 @@ func (m *ModelStore) GetBalance(ctx context.Context, address, asset string) (*bi
 
 func (m *ModelStore) GetAccount(ctx context.Context, address string) (*ledger.Account, error) {
 	m.sim.gateCtx(ctx, "store.GetAccount:"+address)
+	defer m.sim.gateCtx(ctx, "store.GetAccount.answer")
 	m.mu.Lock()
 	defer m.mu.Unlock()
 	return &ledger.Account{Address: address, Metadata: copyMeta(m.fold.AccountMeta[address])}, nil
@@ -277,6 +279,7 @@ func (m *ModelStore) GetLastTransaction(ctx context.Context) (*ledger.ExpandedTr
 
 func (m *ModelStore) ReadLogWithIdempotencyKey(ctx context.Context, key string) (*ledger.ChainedLog, error) {
 	m.sim.gateCtx(ctx, "store.ReadLogWithIdempotencyKey")
+	defer m.sim.gateCtx(ctx, "store.ReadLogWithIdempotencyKey.answer")
 	m.mu.Lock()
 	defer m.mu.Unlock()
 	// "order by id desc limit 1 where idempotency_key = ?"
@@ -294,6 +297,7 @@ func (m *ModelStore) ReadLogWithIdempotencyKey(ctx context.Context, key string) 
 
 func (m *ModelStore) GetTransactionByReference(ctx context.Context, ref string) (*ledger.ExpandedTransaction, error) {
 	m.sim.gateCtx(ctx, "store.GetTransactionByReference")
+	defer m.sim.gateCtx(ctx, "store.GetTransactionByReference.answer")
 	m.mu.Lock()
 	defer m.mu.Unlock()
 	for _, k := range m.fold.TxOrder {
@@ -306,6 +310,7 @@ func (m *ModelStore) GetTransactionByReference(ctx context.Context, ref string) 
 
 func (m *ModelStore) GetTransaction(ctx context.Context, txID *big.Int) (*ledger.Transaction, error) {
 	m.sim.gateCtx(ctx, "store.GetTransaction")
+	defer m.sim.gateCtx(ctx, "store.GetTransaction.answer")
 	m.mu.Lock()
 	defer m.mu.Unlock()
 	t, ok := m.fold.Txs[txID.String()]
